@@ -307,4 +307,567 @@ theorem nowhite_eq (base : Int) (hb62 : base ≤ 62) (s : List Nat) (k : Nat) (_
       subst hk3
       rfl
 
+theorem mpz_inp_str_eq (base : Int) (hb62 : base ≤ 62) (s : List Nat) :
+    mpz_inp_str base s = nowhiteK base s (s.takeWhile isSpace).length := by
+  unfold mpz_inp_str
+  have h := skip_eq s (s.length + 1) 0 (by omega) (by omega)
+  simp only [List.drop_zero, Nat.zero_add] at h
+  rw [h]
+  exact nowhite_eq base hb62 s _ ((List.takeWhile_sublist _).length_le)
+
+/-! ### mpz_inp_str_nowhite on the remaining input as a list -/
+
+/-- base and length of the base-0 prefix at the head of `body` -/
+def prefLen (base : Int) (body : List Nat) : Nat × Nat :=
+  if base = 0 then
+    if body[0]? == some 48 then
+      if body[1]? == some 120 || body[1]? == some 88 then (16, 2)
+      else if body[1]? == some 98 || body[1]? == some 66 then (2, 2)
+      else (8, 1)
+    else (10, 0)
+  else (base.toNat, 0)
+
+/-- mpz_inp_str_nowhite on the remaining input `r` (first element = the character `c`): number of characters
+    consumed and the value stored; `none` = returns 0 -/
+def nowhiteL (base : Int) (r : List Nat) : Option (Nat × Int) :=
+  let off := if base > 36 then 224 else 0
+  let neg := r.head? == some 45
+  let body := if neg then r.drop 1 else r
+  match body.head? with
+  | none => none
+  | some c0 =>
+    if (digitValue off c0 : Int) ≥ (if base = 0 then 10 else base) then none else
+    let b := (prefLen base body).1
+    let rest := body.drop (prefLen base body).2
+    let z := (rest.takeWhile (· == 48)).length
+    let run := (rest.drop z).takeWhile (fun c => decide (digitValue off c < b))
+    let ds := run.map (digitValue off)
+    let value : Int := if ds.length == 0 then 0 else
+      let v := Int.ofNat (val (mpn_set_str b ds))
+      if neg then -v else v
+    some ((if neg then 1 else 0) + (prefLen base body).2 + z + run.length, value)
+
+theorem prefK_eq (base : Int) (s : List Nat) (k1 : Nat) :
+    prefK base s k1 = ((prefLen base (s.drop k1)).1, k1 + (prefLen base (s.drop k1)).2) := by
+  unfold prefK prefLen
+  simp only [List.getElem?_drop, Nat.add_zero]
+  split
+  · split
+    · split
+      · rfl
+      · split <;> rfl
+    · rfl
+  · rfl
+
+theorem nowhiteK_eq_L (base : Int) (s : List Nat) (k : Nat) :
+    match nowhiteL base (s.drop k) with
+    | none => (nowhiteK base s k).ret = 0 ∧ (nowhiteK base s k).value = none
+    | some (n, v) => nowhiteK base s k = ⟨k + n, some v, k + n⟩ := by
+  unfold nowhiteK nowhiteL
+  have hhead : (s.drop k).head? = s[k]? := by rw [List.head?_drop]
+  simp only [hhead]
+  generalize hneg : (s[k]? == some 45) = neg
+  have hbody : (if neg = true then (s.drop k).drop 1 else s.drop k) = s.drop (if neg = true then k + 1 else k) := by
+    cases neg
+    · simp
+    · simp [List.drop_drop]
+  rw [hbody]
+  generalize hk1 : (if neg = true then k + 1 else k) = k1
+  rw [List.head?_drop]
+  cases hc : s[k1]? with
+  | none => exact ⟨rfl, rfl⟩
+  | some c0 =>
+    show match (if _ then _ else _ : Option (Nat × Int)) with | none => _ | some (n, v) => _
+    by_cases hcond : (digitValue (if base > 36 then 224 else 0) c0 : Int) ≥ (if base = 0 then 10 else base)
+    · rw [if_pos hcond]
+      show (if _ then _ else _ : InpResult).ret = 0 ∧ (if _ then _ else _ : InpResult).value = none
+      rw [if_pos hcond]; exact ⟨rfl, rfl⟩
+    · rw [if_neg hcond]
+      show (if _ then _ else _ : InpResult) = _
+      rw [if_neg hcond]
+      unfold nowhiteBody
+      rw [prefK_eq]
+      simp only [List.drop_drop]
+      have hk : k1 = k + (if neg = true then 1 else 0) := by rw [← hk1]; cases neg <;> simp
+      rw [hk]
+      simp only [Nat.add_assoc]
+
+/-! ### list lemmas for the token -/
+
+theorem takeWhile_split (p q : Nat → Bool) (hq : ∀ x, q x = true → p x = true) : ∀ l : List Nat,
+    l.takeWhile p = l.takeWhile q ++ (l.drop (l.takeWhile q).length).takeWhile p
+  | [] => by simp
+  | x :: l => by
+    by_cases h : q x = true
+    · rw [List.takeWhile_cons_of_pos (hq x h), List.takeWhile_cons_of_pos h, takeWhile_split p q hq l]
+      simp
+    · rw [List.takeWhile_cons_of_neg h]
+      simp
+
+theorem mem_takeWhile {p : Nat → Bool} : ∀ (l : List Nat) (x : Nat), x ∈ l.takeWhile p → p x = true ∧ x ∈ l
+  | [], _, h => by simp at h
+  | y :: l, x, h => by
+    by_cases hp : p y = true
+    · rw [List.takeWhile_cons_of_pos hp] at h
+      rcases List.mem_cons.mp h with rfl | h'
+      · exact ⟨hp, by simp⟩
+      · have := mem_takeWhile l x h'
+        exact ⟨this.1, List.mem_cons_of_mem _ this.2⟩
+    · rw [List.takeWhile_cons_of_neg hp] at h; simp at h
+
+theorem takeWhile_congr_mem {p q : Nat → Bool} : ∀ l : List Nat, (∀ x ∈ l, p x = q x) → l.takeWhile p = l.takeWhile q
+  | [], _ => rfl
+  | x :: l, h => by
+    have hx := h x (by simp)
+    have ih := takeWhile_congr_mem l (fun y hy => h y (List.mem_cons_of_mem _ hy))
+    by_cases hp : p x = true
+    · rw [List.takeWhile_cons_of_pos hp, List.takeWhile_cons_of_pos (hx ▸ hp), ih]
+    · rw [List.takeWhile_cons_of_neg hp, List.takeWhile_cons_of_neg (hx ▸ hp)]
+
+theorem ofDigits_zeros (b z : Nat) (ds : List Nat) : ofDigits b (List.replicate z 0 ++ ds) = ofDigits b ds := by
+  rw [ofDigits_app]
+  have : ofDigits b (List.replicate z 0) = 0 := by
+    induction z with
+    | zero => rfl
+    | succ z ih => rw [List.replicate_succ, ofDigits_cons, ih]; simp
+  rw [this]; simp
+
+theorem map_takeWhile_zero (f : Nat → Nat) (h0 : f 48 = 0) : ∀ l : List Nat,
+    (l.takeWhile (· == 48)).map f = List.replicate (l.takeWhile (· == 48)).length 0
+  | [] => rfl
+  | x :: l => by
+    by_cases h : x = 48
+    · subst h
+      rw [List.takeWhile_cons_of_pos (by simp)]
+      simp [h0, map_takeWhile_zero f h0 l, List.replicate_succ]
+    · rw [List.takeWhile_cons_of_neg (by simpa using h)]; rfl
+
+/-- the offset the readers use is `offOf` of the requested base -/
+theorem off_eq (rb : Nat) : (if ((rb : Nat) : Int) > 36 then 224 else 0) = offOf rb := by
+  unfold offOf
+  by_cases h : rb > 36
+  · rw [if_pos h, if_pos (by omega)]
+  · rw [if_neg h, if_neg (by omega)]
+
+theorem isSome_digitOf (htab : TabOk) (rb b c : Nat) (hc : c < 256) (hb : b ≤ 62) :
+    (digitOf rb b c).isSome = decide (digitValue (offOf rb) c < b) := by
+  rw [digitOf_eq htab rb b c hc hb]
+  by_cases h : digitValue (offOf rb) c < b
+  · simp [h]
+  · simp [h]
+
+/-- a character accepted as a digit is not NUL, not white space, not `-` -/
+theorem digit_char_props {rb b c : Nat} (h : (digitOf rb b c).isSome = true) :
+    c ≠ 0 ∧ isSpace c = false ∧ c ≠ 45 ∧ 48 ≤ c := by
+  unfold digitOf at h
+  cases hv : charValue rb c with
+  | none => rw [hv] at h; simp at h
+  | some v =>
+    unfold charValue at hv
+    unfold isSpace
+    split at hv
+    · refine ⟨by omega, ?_, by omega, by omega⟩; simp; omega
+    · split at hv
+      · refine ⟨by omega, ?_, by omega, by omega⟩; simp; omega
+      · split at hv
+        · refine ⟨by omega, ?_, by omega, by omega⟩; simp; omega
+        · simp at hv
+
+theorem digitValue_48 (htab : TabOk) (rb : Nat) : digitValue (offOf rb) 48 = 0 := by
+  rw [digitValue_eq htab rb 48 (by omega)]
+  unfold charValue; simp
+
+/-- the prefix detection of the readers agrees with `splitPrefix` of the specification -/
+theorem prefLen_split (body : List Nat) :
+    (prefLen 0 body).1 = (splitPrefix body).1 ∧ body.drop (prefLen 0 body).2 = (splitPrefix body).2 ∧
+    (prefLen 0 body).2 ≤ body.length ∧
+    (∀ c ∈ body.take (prefLen 0 body).2, c = 48 ∨ c = 120 ∨ c = 88 ∨ c = 98 ∨ c = 66) := by
+  unfold prefLen
+  simp only [if_true]
+  match body with
+  | [] => simp [splitPrefix]
+  | [c] =>
+    by_cases h : c = 48
+    · subst h; simp [splitPrefix]
+    · simp [h, splitPrefix_not48 c [] h]
+  | c :: d :: r =>
+    by_cases h : c = 48
+    · subst h
+      by_cases h1 : d = 120
+      · subst h1; simp [splitPrefix]
+      · by_cases h2 : d = 88
+        · subst h2; simp [splitPrefix]
+        · by_cases h3 : d = 98
+          · subst h3; simp [splitPrefix]
+          · by_cases h4 : d = 66
+            · subst h4; simp [splitPrefix]
+            · simp [h1, h2, h3, h4, splitPrefix_other d r h1 h2 h3 h4]
+    · simp [h, splitPrefix_not48 c (d :: r) h]
+
+/-! ### what the readers consume, and its value -/
+
+/-- The text mpz_inp_str_nowhite consumes from the remaining input `r`: an optional `-`, for base 0 the prefix
+    (`0x`, `0X`, `0b`, `0B`, `0`), then the longest run of characters that are digits of the base; `none` when the
+    first character after the sign is not a digit (a decimal digit for base 0): the "no digits" error. -/
+def inpTok (rb : Nat) (r : List Nat) : Option (List Nat) :=
+  let neg := r.head? == some 45
+  let body := if neg then r.drop 1 else r
+  match body with
+  | [] => none
+  | c :: _ =>
+    if (digitOf rb (if rb = 0 then 10 else rb) c).isNone then none else
+    let bs := if rb = 0 then splitPrefix body else (rb, body)
+    some (r.take (r.length - bs.2.length + (bs.2.takeWhile (fun c => (digitOf rb bs.1 c).isSome)).length))
+
+/-- sign and body of the remaining input -/
+theorem sign_body (r : List Nat) :
+    ∃ body : List Nat, (if (r.head? == some 45) = true then r.drop 1 else r) = body ∧
+      r = (if (r.head? == some 45) = true then [45] else []) ++ body ∧
+      ((r.head? == some 45) = false → body.head? ≠ some 45) := by
+  cases r with
+  | nil => exact ⟨[], by simp, by simp, by simp⟩
+  | cons x t =>
+    by_cases h : x = 45
+    · subst h; exact ⟨t, by simp, by simp, by simp⟩
+    · have : ((x :: t).head? == some 45) = false := by simpa using h
+      rw [this]
+      exact ⟨x :: t, by simp, by simp, by simpa using h⟩
+
+/-- value part: `specTail` on a run of digit characters -/
+theorem specTail_digits (htab : TabOk) (rb b : Nat) (hb62 : b ≤ 62) (neg : Bool) (digs : List Nat)
+    (h256 : ∀ c ∈ digs, c < 256) (hd : ∀ c ∈ digs, (digitOf rb b c).isSome = true) :
+    specTail rb b neg digs = some (if neg then -(Int.ofNat (ofDigits b (digs.map (digitValue (offOf rb)))))
+      else Int.ofNat (ofDigits b (digs.map (digitValue (offOf rb))))) := by
+  unfold specTail
+  have hf : digs.filter (fun c => !isSpace c) = digs := by
+    apply List.filter_eq_self.mpr
+    intro c hc; simp [(digit_char_props (hd c hc)).2.1]
+  have hm : ∀ l : List Nat, (∀ c ∈ l, c < 256) → (∀ c ∈ l, (digitOf rb b c).isSome = true) →
+      l.mapM (digitOf rb b) = some (l.map (digitValue (offOf rb))) := by
+    intro l
+    induction l with
+    | nil => intro _ _; rfl
+    | cons x l ih =>
+      intro h1 h2
+      have hx := h2 x (by simp)
+      have e := digitOf_eq htab rb b x (h1 x (by simp)) hb62
+      have hlt : digitValue (offOf rb) x < b := by
+        by_contra hcon; rw [e, if_neg hcon] at hx; simp at hx
+      rw [if_pos hlt] at e
+      simp only [List.mapM_cons, e, List.map_cons,
+        ih (fun c hc => h1 c (List.mem_cons_of_mem _ hc)) (fun c hc => h2 c (List.mem_cons_of_mem _ hc))]
+      rfl
+  rw [hf, hm digs h256 hd]
+
+theorem digit_small {rb b d : Nat} (hb : b ≤ 10) (h : (digitOf rb b d).isSome = true) : 48 ≤ d ∧ d ≤ 57 := by
+  unfold digitOf at h
+  cases hv : charValue rb d with
+  | none => rw [hv] at h; simp at h
+  | some v =>
+    rw [hv] at h
+    have hvb : v < b := by
+      by_contra hcon; simp [hcon] at h
+    unfold charValue at hv
+    split at hv
+    · omega
+    · split at hv
+      · simp at hv; omega
+      · split at hv
+        · simp at hv; split at hv <;> omega
+        · simp at hv
+
+/-- `splitPrefix` sees the same prefix on the consumed text as on the whole input -/
+theorem splitPrefix_tok (body : List Nat) :
+    splitPrefix (body.take (body.length - (splitPrefix body).2.length) ++
+        (splitPrefix body).2.takeWhile (fun c => (digitOf 0 (splitPrefix body).1 c).isSome)) =
+      ((splitPrefix body).1, (splitPrefix body).2.takeWhile (fun c => (digitOf 0 (splitPrefix body).1 c).isSome)) := by
+  have two : ∀ (x : Nat) (r : List Nat), (48 :: x :: r).length - r.length = 2 := by
+    intro x r; simp only [List.length_cons]; omega
+  have one : ∀ (r : List Nat), (48 :: r).length - r.length = 1 := by
+    intro r; simp only [List.length_cons]; omega
+  -- a first character other than '0': decimal, no prefix
+  have dec : ∀ (c : Nat) (t : List Nat), c ≠ 48 →
+      splitPrefix ((c :: t).take ((c :: t).length - (c :: t).length) ++
+        (c :: t).takeWhile (fun c => (digitOf 0 10 c).isSome)) =
+      (10, (c :: t).takeWhile (fun c => (digitOf 0 10 c).isSome)) := by
+    intro c t h
+    rw [Nat.sub_self, List.take_zero, List.nil_append]
+    by_cases hd : (digitOf 0 10 c).isSome = true
+    · rw [List.takeWhile_cons_of_pos (p := fun c => (digitOf 0 10 c).isSome) hd]
+      exact splitPrefix_not48 c _ h
+    · rw [List.takeWhile_cons_of_neg (p := fun c => (digitOf 0 10 c).isSome) hd]; rfl
+  match body with
+  | [] => rfl
+  | [c] =>
+    by_cases h : c = 48
+    · subst h; rfl
+    · rw [splitPrefix_not48 c [] h]; exact dec c [] h
+  | c :: d :: r =>
+    by_cases h : c = 48
+    · subst h
+      by_cases h1 : d = 120
+      · subst h1
+        show splitPrefix ((48 :: 120 :: r).take ((48 :: 120 :: r).length - r.length) ++ _) = _
+        rw [two]; rfl
+      · by_cases h2 : d = 88
+        · subst h2
+          show splitPrefix ((48 :: 88 :: r).take ((48 :: 88 :: r).length - r.length) ++ _) = _
+          rw [two]; rfl
+        · by_cases h3 : d = 98
+          · subst h3
+            show splitPrefix ((48 :: 98 :: r).take ((48 :: 98 :: r).length - r.length) ++ _) = _
+            rw [two]; rfl
+          · by_cases h4 : d = 66
+            · subst h4
+              show splitPrefix ((48 :: 66 :: r).take ((48 :: 66 :: r).length - r.length) ++ _) = _
+              rw [two]; rfl
+            · rw [splitPrefix_other d r h1 h2 h3 h4]
+              show splitPrefix ((48 :: d :: r).take ((48 :: d :: r).length - (d :: r).length) ++ _) = _
+              rw [one]
+              show splitPrefix (48 :: (d :: r).takeWhile (fun c => (digitOf 0 8 c).isSome)) = _
+              by_cases hd : (digitOf 0 8 d).isSome = true
+              · rw [List.takeWhile_cons_of_pos (p := fun c => (digitOf 0 8 c).isSome) hd]
+                have := digit_small (by omega) hd
+                rw [splitPrefix_other d _ (by omega) (by omega) (by omega) (by omega)]
+              · rw [List.takeWhile_cons_of_neg (p := fun c => (digitOf 0 8 c).isSome) hd]; rfl
+    · rw [splitPrefix_not48 c (d :: r) h]; exact dec c (d :: r) h
+
+/-- base, rest and prefix length of the readers, in terms of the specification's `splitPrefix` -/
+theorem prefLen_cases (rb : Nat) (hrb : rb = 0 ∨ 2 ≤ rb) (hrb62 : rb ≤ 62) (body : List Nat) :
+    (prefLen (rb : Int) body).1 = (if rb = 0 then splitPrefix body else (rb, body)).1 ∧
+    body.drop (prefLen (rb : Int) body).2 = (if rb = 0 then splitPrefix body else (rb, body)).2 ∧
+    (prefLen (rb : Int) body).2 ≤ body.length ∧
+    (∀ c ∈ body.take (prefLen (rb : Int) body).2, c = 48 ∨ c = 120 ∨ c = 88 ∨ c = 98 ∨ c = 66) ∧
+    2 ≤ (prefLen (rb : Int) body).1 ∧ (prefLen (rb : Int) body).1 ≤ 62 := by
+  by_cases h0 : rb = 0
+  · subst h0
+    obtain ⟨a1, a2, a3, a4⟩ := prefLen_split body
+    simp only [Nat.cast_zero, if_true]
+    refine ⟨a1, a2, a3, a4, ?_⟩
+    rw [a1]
+    have := splitPrefix_base body
+    omega
+  · have : prefLen (rb : Int) body = (rb, 0) := by
+      unfold prefLen; rw [if_neg (by omega)]; simp
+    rw [this, if_neg h0]
+    exact ⟨rfl, rfl, Nat.zero_le _, by intro c hc; simp at hc, by omega, hrb62⟩
+
+theorem prefLen_zero (rb : Nat) (body : List Nat) (h : (prefLen (rb : Int) body).2 = 0) :
+    (prefLen (rb : Int) body).1 = (if rb = 0 then 10 else rb) := by
+  unfold prefLen at h ⊢
+  by_cases h0 : rb = 0
+  · subst h0
+    simp only [Nat.cast_zero, if_true] at h ⊢
+    split at h
+    · split at h
+      · simp at h
+      · split at h <;> simp at h
+    · rename_i h1; rw [if_neg h1]
+  · rw [if_neg (by omega), if_neg h0]; simp
+
+theorem nowhiteL_spec (htab : TabOk) (hbases : BasesOk) (rb : Nat) (hrb : rb = 0 ∨ 2 ≤ rb) (hrb62 : rb ≤ 62)
+    (r : List Nat) (hr : ∀ c ∈ r, c < 256) :
+    match inpTok rb r with
+    | none => nowhiteL (rb : Int) r = none
+    | some tok => ∃ v, nowhiteL (rb : Int) r = some (tok.length, v) ∧ parseSpec (rb : Int) tok = some v ∧
+        tok = r.take tok.length := by
+  obtain ⟨body, hbody, hreq, hnoneg⟩ := sign_body r
+  unfold inpTok nowhiteL
+  simp only [hbody, off_eq]
+  generalize hneg : (r.head? == some 45) = neg at *
+  have hb256 : ∀ c ∈ body, c < 256 := by
+    intro c hc; apply hr; rw [hreq]; exact List.mem_append_right _ hc
+  cases body with
+  | nil => exact rfl
+  | cons c t =>
+    have hc256 := hb256 c (by simp)
+    have hlim : 2 ≤ (if rb = 0 then 10 else rb) ∧ (if rb = 0 then 10 else rb) ≤ 62 := by
+      split <;> omega
+    -- the first-character test
+    have hcond : ((digitValue (offOf rb) c : Int) ≥ (if (rb : Int) = 0 then 10 else (rb : Int))) ↔
+        (digitOf rb (if rb = 0 then 10 else rb) c).isNone = true := by
+      rw [digitOf_eq htab rb _ c hc256 hlim.2]
+      by_cases h0 : rb = 0
+      · subst h0
+        simp only [Nat.cast_zero, if_true]
+        by_cases h : digitValue (offOf 0) c < 10
+        · simp [h]
+        · simp [h]; omega
+      · have h0' : ¬ (rb : Int) = 0 := by omega
+        simp only [if_neg h0, if_neg h0']
+        by_cases h : digitValue (offOf rb) c < rb
+        · simp [h]
+        · simp [h]; omega
+    show match (if _ then _ else _ : Option (List Nat)) with | none => _ | some tok => _
+    by_cases hfail : (digitOf rb (if rb = 0 then 10 else rb) c).isNone = true
+    · rw [if_pos hfail]
+      dsimp only [List.head?_cons]
+      rw [if_pos (hcond.mpr hfail)]
+    · rw [if_neg hfail]
+      obtain ⟨p1, p2, p3, p4, p5, p6⟩ := prefLen_cases rb hrb hrb62 (c :: t)
+      generalize hbs : (if rb = 0 then splitPrefix (c :: t) else (rb, c :: t)) = bs at *
+      obtain ⟨b, rest⟩ := bs
+      simp only at p1 p2 ⊢
+      generalize hpl : (prefLen (rb : Int) (c :: t)).2 = pl at *
+      generalize hbb : (prefLen (rb : Int) (c :: t)).1 = b' at *
+      subst p1
+      rw [p2]
+      dsimp only [List.head?_cons]
+      rw [if_neg (mt hcond.mp hfail)]
+      -- the digit run
+      have hrest_mem : ∀ x ∈ rest, x ∈ c :: t := by
+        intro x hx; rw [← p2] at hx; exact List.mem_of_mem_drop hx
+      have hrest256 : ∀ x ∈ rest, x < 256 := fun x hx => hb256 x (hrest_mem x hx)
+      have hcongr : rest.takeWhile (fun c => (digitOf rb b' c).isSome) =
+          rest.takeWhile (fun c => decide (digitValue (offOf rb) c < b')) :=
+        takeWhile_congr_mem rest (fun x hx => isSome_digitOf htab rb b' x (hrest256 x hx) p6)
+      have h48 : ∀ x : Nat, (x == 48) = true → decide (digitValue (offOf rb) x < b') = true := by
+        intro x hx
+        have : x = 48 := by simpa using hx
+        subst this
+        rw [digitValue_48 htab rb]; simp; omega
+      have hsplit := takeWhile_split (fun c => decide (digitValue (offOf rb) c < b')) (· == 48) h48 rest
+      generalize hz : rest.takeWhile (· == 48) = zeros at *
+      generalize hrun : (rest.drop zeros.length).takeWhile (fun c => decide (digitValue (offOf rb) c < b')) = run at *
+      generalize hdigs : rest.takeWhile (fun c => (digitOf rb b' c).isSome) = digs at *
+      rw [← hcongr] at hsplit
+      have hdl : digs.length ≤ rest.length := by rw [← hdigs]; exact (List.takeWhile_sublist _).length_le
+      have hpre : digs = rest.take digs.length := by
+        have : digs <+: rest := by rw [← hdigs]; exact List.takeWhile_prefix _
+        exact List.prefix_iff_eq_take.mp this
+      have hbl : (c :: t).length = pl + rest.length := by rw [← p2, List.length_drop]; omega
+      generalize hsign : (if neg = true then [45] else ([] : List Nat)) = sign at *
+      have hsl : sign.length = (if neg = true then 1 else 0) := by rw [← hsign]; cases neg <;> rfl
+      have hrl : r.length = sign.length + (c :: t).length := by rw [hreq, List.length_append]
+      have hn : r.length - rest.length + digs.length = sign.length + pl + digs.length := by omega
+      have hr3 : r = (sign ++ ((c :: t).take pl ++ digs)) ++ rest.drop digs.length := by
+        conv_lhs => rw [hreq, ← List.take_append_drop pl (c :: t), p2]
+        conv_lhs => rw [← List.take_append_drop digs.length rest, ← hpre]
+        simp only [List.append_assoc]
+      have hlen3 : (sign ++ ((c :: t).take pl ++ digs)).length = sign.length + pl + digs.length := by
+        rw [List.length_append, List.length_append, List.length_take, Nat.min_eq_left p3]; omega
+      have htok : r.take (r.length - rest.length + digs.length) = sign ++ ((c :: t).take pl ++ digs) := by
+        rw [hn]; conv_lhs => rw [hr3]
+        exact List.take_left' hlen3
+      have htl : (r.take (r.length - rest.length + digs.length)).length = sign.length + pl + digs.length := by
+        rw [htok, hlen3]
+      -- digits and their values
+      have hdigsD : ∀ x ∈ digs, (digitOf rb b' x).isSome = true := by
+        intro x hx; rw [← hdigs] at hx; exact (mem_takeWhile _ _ hx).1
+      have hdigs256 : ∀ x ∈ digs, x < 256 := by
+        intro x hx; rw [← hdigs] at hx; exact hrest256 x (mem_takeWhile _ _ hx).2
+      have hmapz : digs.map (digitValue (offOf rb)) =
+          List.replicate zeros.length 0 ++ run.map (digitValue (offOf rb)) := by
+        rw [hsplit, List.map_append, ← hz, map_takeWhile_zero _ (digitValue_48 htab rb)]
+      refine ⟨if neg = true then -(Int.ofNat (ofDigits b' (digs.map (digitValue (offOf rb)))))
+        else Int.ofNat (ofDigits b' (digs.map (digitValue (offOf rb)))), ?_, ?_, ?_⟩
+      · -- the model's count and value
+        rw [htl, hsl, hmapz, ofDigits_zeros]
+        have hcount : (if neg = true then 1 else 0) + pl + zeros.length + run.length =
+            (if neg = true then 1 else 0) + pl + digs.length := by
+          rw [hsplit, List.length_append]; omega
+        rw [hcount]
+        congr 2
+        by_cases hds : run = []
+        · subst hds; cases neg <;> simp [ofDigits]
+        · have hc0 : ((run.map (digitValue (offOf rb))).length == 0) = false := by
+            cases run with
+            | nil => exact absurd rfl hds
+            | cons _ _ => simp
+          rw [hc0]
+          simp only [Bool.false_eq_true, if_false]
+          have hbo := hbases b' (by omega) p5
+          have hdlt : ∀ d ∈ run.map (digitValue (offOf rb)), d < b' := by
+            intro d hd
+            obtain ⟨x, hx, rfl⟩ := List.mem_map.mp hd
+            rw [← hrun] at hx
+            simpa using (mem_takeWhile _ _ hx).1
+          rw [mpn_set_str_val_of_table p5 p6 hbo.1 hbo.2 _ (by simpa using hds) hdlt]
+      · -- the specification's value of the consumed text
+        rw [htok, parseSpec_nat rb (by omega) hrb62]
+        have hcD : (digitOf rb (if rb = 0 then 10 else rb) c).isSome = true := by
+          cases hd : digitOf rb (if rb = 0 then 10 else rb) c with
+          | none => exact absurd (by rw [hd]; rfl) hfail
+          | some _ => rfl
+        have hcp := digit_char_props hcD
+        generalize hpre : (c :: t).take pl = pre at *
+        have hpd : ∀ x ∈ pre ++ digs, x ≠ 0 ∧ isSpace x = false := by
+          intro x hx
+          rcases List.mem_append.mp hx with h | h
+          · rcases p4 x h with e | e | e | e | e <;> subst e <;> exact ⟨by omega, by decide⟩
+          · have := digit_char_props (hdigsD x h); exact ⟨this.1, this.2.1⟩
+        -- the text after the sign starts with c
+        have hhead : ∃ tl, pre ++ digs = c :: tl := by
+          rcases Nat.eq_zero_or_pos pl with h0 | h0
+          · have hb' : b' = (if rb = 0 then 10 else rb) := by rw [← hbb]; exact prefLen_zero rb _ (by rw [hpl]; exact h0)
+            subst h0
+            simp only [List.take_zero] at hpre
+            simp only [List.drop_zero] at p2
+            subst hpre; subst p2
+            rw [← hdigs, List.takeWhile_cons_of_pos (p := fun c => (digitOf rb b' c).isSome) (by rw [hb']; exact hcD)]
+            exact ⟨_, rfl⟩
+          · obtain ⟨pl', rfl⟩ : ∃ pl', pl = pl' + 1 := ⟨pl - 1, by omega⟩
+            rw [← hpre, List.take_succ_cons]; exact ⟨_, rfl⟩
+        obtain ⟨tl, htl'⟩ := hhead
+        have hrest_spec : ∀ ng : Bool, specRest rb ng (pre ++ digs) =
+            some (if ng then -(Int.ofNat (ofDigits b' (digs.map (digitValue (offOf rb)))))
+              else Int.ofNat (ofDigits b' (digs.map (digitValue (offOf rb))))) := by
+          intro ng
+          have hsp : (if rb = 0 then splitPrefix (pre ++ digs) else (rb, pre ++ digs)) = (b', digs) := by
+            by_cases h0 : rb = 0
+            · subst h0
+              simp only [if_true] at hbs ⊢
+              have := splitPrefix_tok (c :: t)
+              rw [hbs] at this
+              simp only at this
+              rw [show (c :: t).length - rest.length = pl by omega, hpre, hdigs] at this
+              exact this
+            · simp only [if_neg h0] at hbs ⊢
+              have e1 : b' = rb := (Prod.mk.inj hbs).1.symm
+              have e2 : rest = c :: t := (Prod.mk.inj hbs).2.symm
+              have : pl = 0 := by rw [e2] at hbl; omega
+              subst this
+              simp only [List.take_zero] at hpre
+              rw [← hpre, e1]; rfl
+          unfold specRest
+          rw [htl']
+          dsimp only
+          have : (digitOf rb (if rb = 0 then 10 else rb) c).isNone = false := by
+            cases hd : digitOf rb (if rb = 0 then 10 else rb) c with
+            | none => rw [hd] at hcD; simp at hcD
+            | some _ => rfl
+          rw [this, ← htl', hsp]
+          simp only [Bool.false_eq_true, if_false]
+          exact specTail_digits htab rb b' p6 ng digs hdigs256 hdigsD
+        have htw : ∀ l : List Nat, (∀ x ∈ l, x ≠ 0) → l.takeWhile (· != 0) = l := by
+          intro l hl
+          apply takeWhile_all
+          intro x hx; simpa using hl x hx
+        cases neg with
+        | true =>
+          subst hsign
+          rw [if_pos rfl]
+          rw [htw _ (by
+            intro x hx
+            rcases List.mem_append.mp hx with h | h
+            · simp at h; omega
+            · exact (hpd x h).1)]
+          have hdw : ([45] ++ (pre ++ digs)).dropWhile isSpace = 45 :: (pre ++ digs) := by
+            simp [isSpace]
+          rw [hdw]
+          simp only [List.head?_cons, beq_self_eq_true, if_true, List.drop_succ_cons, List.drop_zero]
+          exact hrest_spec true
+        | false =>
+          subst hsign
+          simp only [List.nil_append, Bool.false_eq_true, if_false]
+          rw [htw _ (fun x hx => (hpd x hx).1)]
+          have hdw : (pre ++ digs).dropWhile isSpace = pre ++ digs := by
+            rw [htl']; simp [hcp.2.1]
+          rw [hdw]
+          have hh : ((pre ++ digs).head? == some 45) = false := by
+            rw [htl']; simpa using hcp.2.2.1
+          simp only [hh, Bool.false_eq_true, if_false]
+          exact hrest_spec false
+      · rw [htl, ← hn]
+
 end Mpir.Radix
